@@ -56,13 +56,15 @@ Permits(right, admin, path) ==
   IN \E i \in 1..Len(ps) : Match(ps[i], path)
 
 (* ---- the domain on which the statement gives a verdict ------------------ *)
-(* pattern: optional '/', then segments; each segment is letters, '+', or a
-   final '*'.  Other shapes ('*' in the middle, 'a*', empty segments, blanks
-   inside a pattern) are left open by the statement and are not compared.    *)
+(* pattern: optional '/', then segments; a segment is '+', a final '*', or a
+   literal = any other non-empty run of letters / '+' / '*' characters (so
+   'a*', '+a', '**' are literals: only a segment that IS '+' or '*' is a
+   wildcard).  Left open by the statement and not compared: a segment that is
+   exactly '*' before the end, empty segments, blanks inside a pattern.       *)
 WFSeg(s, last) ==
-  \/ s # <<>> /\ \A i \in 1..Len(s) : IsLetter(s[i])
   \/ s = <<"+">>
-  \/ last /\ s = <<"*">>
+  \/ s = <<"*">> /\ last
+  \/ s # <<>> /\ s # <<"*">> /\ \A i \in 1..Len(s) : IsLetter(s[i]) \/ s[i] \in {"+", "*"}
 WFPattern(p) ==
   LET P == Segs(p) IN \A i \in 1..Len(P) : WFSeg(P[i], i = Len(P))
 WFRight(right, admin) ==
